@@ -58,8 +58,11 @@ func zzSchema(k0, k1, s0, req string, maxLen int64, hasMaxLen bool) runtime.RawE
 				"oneOf":                    []any{map[string]any{"required": []any{"alpha"}}, map[string]any{"required": []any{"beta"}}},
 			},
 			"status": map[string]any{
-				"type":       "object",
-				"properties": map[string]any{s0: map[string]any{"type": "string", "description": "author-status"}},
+				"type":                     "object",
+				"description":              "author status description",
+				"required":                 []any{"phase"},
+				"properties":               map[string]any{s0: map[string]any{"type": "string", "description": "author-status"}},
+				"x-kubernetes-validations": []any{map[string]any{"rule": "has(self.phase)", "message": "author status rule"}},
 			},
 		},
 	}
@@ -186,6 +189,8 @@ func HarnessC11CRDs() {
 				got, ok := status.Properties[s0]
 				zz.Assert(what+"-author-status-property-carried", ok && got.Type == "string")
 			}
+			zz.Assert(what+"-author-status-required-list-carried", len(status.Required) == 1 && status.Required[0] == "phase")
+			zz.Assert(what+"-author-status-validation-rules-carried", len(status.XValidations) >= 1 && status.XValidations[len(status.XValidations)-1].Rule == "has(self.phase)")
 			// metadata.name length limit
 			ml := ver.Schema.OpenAPIV3Schema.Properties["metadata"].Properties["name"].MaxLength
 			zz.Assert(what+"-name-maxlength-set", ml != nil)
